@@ -370,7 +370,7 @@ pub fn run_solve(data: &Value) -> Vec<Line> {
             // inside the class of the known findings F1/F11 (a participant with own choices instructs a
             // non-fixed course) the relaxation of a child can exceed its parent's; it is the known
             // finding only if the MODEL's tree of this instance is not Bounded either
-            let mut l = Line::spec(&["C03"], "B", it.clone(), "SUFFIX:bounded=false".to_string());
+            let mut l = Line::spec(&["C03"], "B", it.clone(), "CONTAINS:bounded=false".to_string());
             l.what = format!("KNOWN-IF-MATCH:unbounded_tree_freeable_instructor (threads, score) per schedule: {:?}", verdicts);
             lines.push(l);
         } else {
@@ -389,7 +389,7 @@ pub fn run_solve(data: &Value) -> Vec<Line> {
                     // model of the unchanged algorithm arrives at the same sub-optimal answer
                     let mut l = Line::spec(&["C02"], "B", it.clone(),
                         format!("best={} complete=true", got.map_or("none".to_string(), |g| g.to_string())));
-                    l.expect = format!("PREFIX:{}", l.expect);
+                    l.expect = format!("F1F11:{}", got.map_or("none".to_string(), |g| g.to_string()));
                     l.what = format!("KNOWN-IF-MATCH:freeable_instructor reported {:?}, brute-force optimum {:?}", got, opt_norooms);
                     lines.push(l);
                 } else {
